@@ -437,6 +437,7 @@ type progGen struct {
 	maxMW    int  // max middleware per list
 	noGlobal bool // no top-level Use statements
 	optOnly  bool // some routes are dynamic without a variable: "/r3[.html]"
+	bare     bool // a group may have one route whose own path is just "/{id}" (a variable right under the group prefix)
 	strict   bool // StrictLastSlash router: some route paths end in '/', prefixes are spelled cleanly
 	styles   bool // also register through Any / prepared NewRoute+Use+AddRoute / AttachTo
 
@@ -481,7 +482,12 @@ func (g *progGen) route0(probe bool) *RouteStmt {
 	g.nRoute++
 	rs := &RouteStmt{Name: fmt.Sprintf("R%d", g.nRoute), Method: pick(g.r, []string{"GET", "GET", "POST", "PUT", "DELETE", "PATCH"}), Probe: probe}
 	rs.Path = fmt.Sprintf("/r%d", g.nRoute)
-	if g.dynamic && chance(g.r, 1, 3) {
+	if g.bare && g.dynamic && !g.optOnly && len(strings.Trim(g.curPrefix, "/ ")) > 0 && !strings.Contains(g.curPrefix, "{") && !g.usedSelf["bare:"+g.curPrefix] && chance(g.r, 1, 5) {
+		// "/users/{id}" written as GET("/{id}") inside Group("/users"): the literal head of this route is the
+		// group prefix itself, which is also the beginning of the heads of everything nested below
+		g.usedSelf["bare:"+g.curPrefix] = true
+		rs.Path = "/{id:[0-9]{3}}" // (three digits: no literal segment of these programs and no other variable's value looks like that)
+	} else if g.dynamic && chance(g.r, 1, 3) {
 		rs.Path += "/{id}"
 	} else if g.optOnly && chance(g.r, 1, 4) {
 		rs.Path += "[.html]"
@@ -674,6 +680,7 @@ func GenProgram(r *rand.Rand, g *progGen) *Program {
 // RequestPath instantiates a route's full path.
 func (rs *RouteStmt) RequestPath(r *rand.Rand) string {
 	p := strings.ReplaceAll(rs.FullPath, "{id}", pick(r, []string{"1", "22", "abc"}))
+	p = strings.ReplaceAll(p, "{id:[0-9]{3}}", pick(r, []string{"101", "202", "330"}))
 	if strings.Contains(p, "[.html]") {
 		p = strings.ReplaceAll(p, "[.html]", pick(r, []string{"", ".html"}))
 	}
